@@ -83,6 +83,17 @@ var nestReach = []reach{
 	{"ptr-ptr-ptr", []string{"ptr", "ptr", "ptr"}, &RN9{}},
 }
 
+func nestData(v int64) map[string]any {
+	cell := func(x int64) any { return map[string]any{"v": x} }
+	return map[string]any{
+		"ll":  []any{[]any{cell(v), cell(v + 1)}, []any{cell(v + 2)}},
+		"ml":  map[string]any{"k": []any{cell(v + 3)}},
+		"pa":  []any{cell(v + 4), cell(v + 5)},
+		"sp":  []any{cell(v + 6)},
+		"lml": []any{map[string]any{"k": []any{cell(v + 7)}}},
+	}
+}
+
 // singleStepReaches mirrors Reuse/Registry.lean `reaches … false`: the walk takes the element type of
 // ONE container, the recursive registerComposer call dereferences one leading pointer, and must then
 // be at the struct type.
@@ -162,7 +173,8 @@ func (run *Run) RegistryClosure(emit func(lib.Finding)) int {
 						"a write to r.composers that is not synchronised with the reads of other goroutines",
 						rt.name, root.name, name, br.via, name, Render(got), err, pan, want, root.name),
 					Replay: map[string]any{"scenario": "registry-closure", "route": rt.name, "root": root.name, "type": name, "via": br.via}}
-				// C08-registry-nested-containers: the type sits behind two or more container levels that the
+				// finding C08-registry-nested-containers (fixed by a720b7c; the predicate only applies while the entry
+				// is listed as known): the type sits behind two or more container levels that the
 				// single step of the field walk (plus the one pointer registerComposer dereferences) does not get through
 				if !singleStepReaches(br.path) && len(br.path) >= 2 && lib.HasKnown(run.Known, "C08-registry-nested-containers") {
 					fd.Kind, fd.KnownID = "known", "C08-registry-nested-containers"
